@@ -200,6 +200,12 @@ CANARIES = {
         },
     },
     "C06": {
+        "constrained_unequal_half_kicks": {
+            "module": "mici.integrators",
+            "old": "        self._step_a(state, 0.5 * time_step)\n        self._step_b(state, time_step)\n        self._step_a(state, 0.5 * time_step)",
+            "new": "        self._step_a(state, 0.25 * time_step)\n        self._step_b(state, time_step)\n        self._step_a(state, 0.75 * time_step)",
+            "cases": ["constrained/newton/inner1"], "what": "constrained leapfrog with unequal momentum half steps (first-order accurate only)",
+        },
         "leapfrog_becomes_symplectic_euler": {
             "module": "mici.integrators",
             "old": "        self.system.h1_flow(state, 0.5 * time_step)\n        self.system.h2_flow(state, time_step)\n        self.system.h1_flow(state, 0.5 * time_step)",
